@@ -128,19 +128,6 @@ def newGetAddress (H : List UInt8 → List UInt8) (code : Cell) (ver : Nat) (pk 
   | none => .err "unsupported wallet version"
   | some v => address H code v pk o
 
-/-- `wallet.GenerateWalletAddress(key, ver, networkGlobalID, workchain, subWalletId)`: builds the option list
-(workchain always given) and calls the same `newWallet` / `generateAddress` -/
-def generateWalletAddress (H : List UInt8 → List UInt8) (code : Cell) (ver : Nat) (pk : List UInt8)
-    (net : Option Int) (wc : Int) (sub : Option Nat) : Outcome Address :=
-  newGetAddress H code ver pk { workchain := some wc, subWallet := sub, net := net }
-
-/-- `wallet.GenerateStateInit(…)` marshalled. For an unsupported version the Go function returns the zero
-`tlb.StateInit{}` and a nil error (sic); its marshalling is five zero bits. -/
-def generateStateInit (code : Cell) (ver : Nat) (pk : List UInt8) (net : Option Int) (wc : Int) (sub : Option Nat) : Cell :=
-  match Version.ofGoIndex? ver with
-  | none => .ordinary [false, false, false, false, false] []
-  | some v => walletStateInit code v pk { workchain := some wc, subWallet := sub, net := net }
-
 /-- `maxMessageNumber()` -/
 def maxMessages (v : Version) : Nat :=
   match v.family with
